@@ -14,6 +14,9 @@ CONSTANTS Family,   \* which script family to emit
           OpSet,    \* the operations to emit scripts for
           RpSet     \* representations to emit for each document argument: 0 binary, 1..3 text spacings
 
+\* the function-form restatement of the width rules that Apalache proves for all 2^64 patterns (spec/NumLemma.tla)
+LEM == INSTANCE NumLemma WITH b <- <<>>
+
 VARIABLES stage, d1, d2, scr
 vars == <<stage, d1, d2, scr>>
 
@@ -248,6 +251,8 @@ GenInv ==
               LET n == a.n
               IN /\ DecodeClass(Compact(n)) = "ok" /\ DecodeNum(Compact(n)) = CanonNum(n)
                  /\ Len(Compact(n)) \in {1, 2, 3, 5, 9}
+                 \* Num.tla's width rules are the ones the unbounded lemma is about
+                 /\ (n.r = "u" => UWidth(n.b) = LEM!UWidth(n.b)) /\ (n.r = "i" => IWidth(n.b) = LEM!IWidth(n.b))
                  \* shortest: no narrower integer form holds the value
                  /\ (n.r = "u" /\ Len(Compact(n)) > 2 => ~AllZero(Sub(n.b, 1, 9 - ((Len(Compact(n)) - 1) \div 2) - 1)))
                  /\ NumCmp(n, n) = 0
